@@ -174,6 +174,13 @@ def make_callable(rec, ch):
             return function_wrappers.with_function_scope(lambda scope: fn(m), 'lscope', opts)
         return api.autograph_artifact(ls)
     if k[0] == 'tograph':
+        if ch.dyn:
+            # no source code: to_graph itself refuses (before anything is called)
+            try:
+                g = api.to_graph(fn, recursive=k[1])
+            except Exception as e:   # noqa
+                raise Boom('boom (to_graph refused dynamic code): %s' % type(e).__name__)
+            return g
         return api.to_graph(fn, recursive=k[1])
     raise ValueError(k)
 
